@@ -19,6 +19,8 @@ import (
 	"log/slog"
 	"math/big"
 	"os"
+	"runtime"
+	"runtime/debug"
 	"sort"
 	"strings"
 	"sync"
@@ -51,8 +53,8 @@ const (
 // ---- plan
 
 type LogSpec struct {
-	A uint8   `json:"a"`
-	T []uint8 `json:"t,omitempty"`
+	A int   `json:"a"`
+	T []int `json:"t,omitempty"`
 }
 
 type BlockSpec struct {
@@ -63,8 +65,8 @@ type BlockSpec struct {
 type QuerySpec struct {
 	Begin  int64     `json:"b"` // block number, -2 = latest, -5 = earliest
 	End    int64     `json:"e"`
-	Addrs  []uint8   `json:"a,omitempty"` // index >= nAddr: an address that never logs
-	Topics [][]uint8 `json:"t,omitempty"` // per position: alternatives; empty = wildcard
+	Addrs  []int   `json:"a,omitempty"` // index >= nAddr: an address that never logs
+	Topics [][]int `json:"t,omitempty"` // per position: alternatives; empty = wildcard
 }
 
 type Op struct {
@@ -134,10 +136,10 @@ func genLogs(r *simcore.Rand) [][]LogSpec {
 		}
 		var logs []LogSpec
 		for j := 0; j < n; j++ {
-			l := LogSpec{A: uint8(r.Intn(nAddr))}
+			l := LogSpec{A: r.Intn(nAddr)}
 			nt := r.Pick(2, 3, 3, 2, 2)
 			for k := 0; k < nt; k++ {
-				l.T = append(l.T, uint8(r.Intn(nTopic)))
+				l.T = append(l.T, r.Intn(nTopic))
 			}
 			logs = append(logs, l)
 		}
@@ -201,28 +203,28 @@ func genQuery(r *simcore.Rand, head int, history uint64) QuerySpec {
 	switch r.Pick(3, 4, 2, 1) {
 	case 0:
 	case 1:
-		q.Addrs = []uint8{uint8(r.Intn(nAddr))}
+		q.Addrs = []int{r.Intn(nAddr)}
 	case 2:
 		n := r.Range(2, 3)
 		for i := 0; i < n; i++ {
-			q.Addrs = append(q.Addrs, uint8(r.Intn(nAddr+1)))
+			q.Addrs = append(q.Addrs, r.Intn(nAddr+1))
 		}
 	default:
-		q.Addrs = []uint8{uint8(nAddr + r.Intn(2))}
+		q.Addrs = []int{nAddr + r.Intn(2)}
 	}
 	// topics
 	npos := r.Pick(3, 3, 3, 2, 1)
 	for i := 0; i < npos; i++ {
 		switch r.Pick(3, 4, 2) {
 		case 0:
-			q.Topics = append(q.Topics, []uint8{})
+			q.Topics = append(q.Topics, []int{})
 		case 1:
-			q.Topics = append(q.Topics, []uint8{uint8(r.Intn(nTopic))})
+			q.Topics = append(q.Topics, []int{r.Intn(nTopic)})
 		default:
 			n := r.Range(2, 3)
-			var alt []uint8
+			var alt []int
 			for j := 0; j < n; j++ {
-				alt = append(alt, uint8(r.Intn(nTopic+1)))
+				alt = append(alt, r.Intn(nTopic+1))
 			}
 			q.Topics = append(q.Topics, alt)
 		}
@@ -237,8 +239,11 @@ func Gen(r *simcore.Rand, tier string) any {
 	p.LogMapsPerEpoch = uint(r.Range(0, 3))
 	widths := []uint{8, 16, 24}
 	p.LogMapWidth = widths[r.Pick(3, 2, 2)]
-	p.BaseRowGroupSize = uint32(1) << uint(r.Range(0, 3))
-	p.BaseRowLengthRatio = uint(r.Range(1, 4))
+	// a base row group must not span epochs (deleteTailEpoch removes whole key ranges of
+	// an epoch; with a group larger than an epoch that would take base rows of later
+	// epochs with it). DefaultParams satisfy this; Params.sanitize does not check it.
+	p.BaseRowGroupSize = uint32(1) << uint(r.Range(0, min(3, int(p.LogMapsPerEpoch))))
+	p.BaseRowLengthRatio = uint(r.Range(2, 6)) // ratio 1 = map capacity equals values per map: a full map has no non-full row and the matcher never terminates (degenerate Params, not generated)
 	p.LogLayerDiff = uint(r.Range(1, 3))
 	if !r.Bool(0.35) {
 		p.History = uint64(r.Range(2, 40))
@@ -421,15 +426,15 @@ func Shrink(pl any) []any {
 
 var chainConfig = params.TestChainConfig
 
-func addrOf(i uint8) common.Address {
+func addrOf(i int) common.Address {
 	var a common.Address
-	a[0], a[1], a[19] = 0xA0, i, i+1
+	a[0], a[1], a[19] = 0xA0, byte(i), byte(i+1)
 	return a
 }
 
-func topicOf(i uint8) common.Hash {
+func topicOf(i int) common.Hash {
 	var h common.Hash
-	h[0], h[1], h[31] = 0x70, i, i+1
+	h[0], h[1], h[31] = 0x70, byte(i), byte(i+1)
 	return h
 }
 
@@ -468,6 +473,7 @@ type world struct {
 	errLogs   []string
 	lastFirst int64 // BlocksFirst at the previous idle point (-1 unknown)
 	viol      *simcore.Violation
+	dead      bool // the indexer disabled itself through a known finding; run is over
 }
 
 func (w *world) fail(v *simcore.Violation) {
@@ -487,7 +493,7 @@ func (w *world) probe(name string) {
 func (w *world) failed() bool {
 	w.mu.Lock()
 	defer w.mu.Unlock()
-	return w.viol != nil
+	return w.viol != nil || w.dead
 }
 
 func (w *world) observe(s string) {
@@ -859,6 +865,17 @@ func (w *world) disabledViolation(where string) {
 	w.mu.Unlock()
 	v := simcore.Violf("indexer-disabled", "%s: the indexer switched itself off on a healthy disk and chain; error log: %s", where, msgs)
 	v.Key = "indexer-disabled:" + classify(msgs)
+	if strings.Contains(msgs, "tail rendering failed") && strings.Contains(msgs, "failed to create log iterator from block delimiter") && strings.Contains(msgs, "unindexed range") {
+		v.Key = "indexer-disabled:tail-render-from-unindexed-snapshot"
+	}
+	if simcore.IsKnown(v.Key) {
+		// recorded finding: the indexer is dead for the rest of this run; stop quietly
+		w.mu.Lock()
+		w.res.KnownHit(v.Key)
+		w.dead = true
+		w.mu.Unlock()
+		return
+	}
 	w.fail(v)
 }
 
@@ -1151,6 +1168,17 @@ func Run(t *testing.T, pl any) *simcore.Result {
 	oldLog := log.Root()
 	log.SetDefault(log.NewLogger(&logCapture{w}))
 	defer log.SetDefault(oldLog)
+
+	// The lock-aware quiescence detection of simsched (ModePoll) reads goroutine states
+	// from runtime.Stack(all), which stops the world. A goroutine that wants to start a
+	// GC cycle at that moment waits in state "semacquire" for the world semaphore the
+	// dumper holds, and would be taken for blocked. No GC cycles while a world runs;
+	// one explicit collection after each run, outside the bubble.
+	oldGC := debug.SetGCPercent(-1)
+	defer func() {
+		debug.SetGCPercent(oldGC)
+		runtime.GC()
+	}()
 
 	var stuck string
 	dl := simsched.Bubble(t, func() {
